@@ -25,7 +25,7 @@ type c18Spec struct {
 	Format string `json:"format"` // yml | txt
 	Group  string `json:"group"`  // base | stage:<i> | part:<i> | invalid
 	Values int    `json:"values"` // values per parameter
-	Env    int    `json:"env,omitempty"` // configuration the pair of runs shares: 0 defaults; 1 CO2 method 3 at 550 ppm with stomata influence; 2 CO2 method 1 at 700 ppm, Turc-Wendling ET; 3 small soil root depth, Haude ET, other N-mineralisation method
+	Env    int    `json:"env,omitempty"` // configuration the pair of runs shares (4: the crop follows a three-stage catch crop): 0 defaults; 1 CO2 method 3 at 550 ppm with stomata influence; 2 CO2 method 1 at 700 ppm, Turc-Wendling ET; 3 small soil root depth, Haude ET, other N-mineralisation method
 }
 
 var c18StageParams = []string{"TSUM", "BAS", "VSCHWELL", "DAYL", "DLBAS", "DRYSWELL", "LUKRIT", "LAIFKT", "WGMAX", "KC"}
@@ -56,6 +56,13 @@ func c18Specs(tier string, seed int) []c18Spec {
 			for env := 1; env <= 3; env++ {
 				if tier == "thorough" || fm == "txt" || env == 1+i%3 {
 					out = append(out, c18Spec{File: f, Format: fm, Group: "base", Values: vals, Env: env})
+				}
+			}
+			// ... and as second crop of the rotation, after a crop with fewer development stages
+			out = append(out, c18Spec{File: f, Format: fm, Group: "base", Values: vals, Env: 4}, c18Spec{File: f, Format: fm, Group: "invalid", Values: vals, Env: 4})
+			for s := 4; s <= 7; s++ {
+				if tier == "thorough" || (i+s)%2 == 0 {
+					out = append(out, c18Spec{File: f, Format: fm, Group: fmt.Sprintf("stage:%d", s), Values: vals, Env: 4})
 				}
 			}
 			for s := 1; s <= 10; s++ {
@@ -304,7 +311,11 @@ func c18Run(raw json.RawMessage, c *mc.Ctx) {
 	}
 	root := scratchRoot()
 	defer os.RemoveAll(root)
-	p, cropFile, _ := c18Project(sp.File, yml)
+	p, cropFile, abbrOfFile := c18Project(sp.File, yml)
+	if sp.Env == 4 && abbrOfFile != "PH" {
+		// the named crop is not the first crop sown: a catch crop with only three development stages grows before it
+		p.Rotation = append(append([]proj.CropEntry{}, p.Rotation[:1]...), append([]proj.CropEntry{{Crop: "PH", Sow: "2001-08-20", Harvest: "2001-09-28", Rex: 0}}, p.Rotation[1:]...)...)
+	}
 	switch sp.Env {
 	case 1:
 		p.Config["CO2method"], p.Config["CO2concentration"], p.Config["CO2StomataInfluence"] = "3", "550", "1"
